@@ -293,6 +293,11 @@ type App struct {
 	// SlowNext makes the next inbound callback (FromAdmin/FromApp) take that long in simulated time: a slow
 	// application. Set by the driver at quiescence; consumed by the callback.
 	SlowNext atomic.Int64
+	// SlowSeq: durations for the next inbound callbacks, one each, in order (a busy application working
+	// through a burst). SlowEnd is the simulated instant the last such callback returned.
+	SlowSeq []time.Duration
+	SlowEnd time.Time
+	SlowDone int
 }
 
 func (a *App) slow() {
@@ -300,6 +305,29 @@ func (a *App) slow() {
 		a.env.Stat("fault_slow_callback")
 		time.Sleep(time.Duration(d))
 	}
+	a.mu.Lock()
+	var d time.Duration
+	if len(a.SlowSeq) > 0 {
+		d = a.SlowSeq[0]
+		a.SlowSeq = a.SlowSeq[1:]
+	}
+	a.mu.Unlock()
+	if d > 0 {
+		a.env.Stat("fault_slow_callback")
+		time.Sleep(d)
+		a.mu.Lock()
+		a.SlowEnd = time.Now()
+		a.SlowDone++
+		a.mu.Unlock()
+	}
+}
+
+// SlowLeft reports how many planned slow callbacks have not started yet, how many have returned, and when the last
+// one returned.
+func (a *App) SlowLeft() (left, done int, end time.Time) {
+	a.mu.Lock()
+	defer a.mu.Unlock()
+	return len(a.SlowSeq), a.SlowDone, a.SlowEnd
 }
 
 func (a *App) rec(kind string, m *quickfix.Message) AppCall {
